@@ -4,6 +4,7 @@ from ..defuse import du_of, walk, peel, callee_name, fmt
 from ..conds import lits_of
 from ..callgraph import cg_of
 from ..guards import locks_of
+from ..roles import roles_of
 from ..common import arg_term, contains_call, field_path, assigns_of_return
 from .. import tables
 
@@ -21,6 +22,7 @@ TRUSTED = ["rustc nightly MIR", "yavomrs::myers_unfilled produces a correct edit
 
 
 def run(facts, res):
+    R = roles_of(facts)
     cg = cg_of(facts)
     res.rule("E1", "the diff base is the recorded parent")
     res.rule("E2", "edit-script op-code and operand tables of writer and applier agree")
@@ -33,7 +35,7 @@ def run(facts, res):
     else:
         du = du_of(u)
         cfg = cfg_of(u)
-        diffs = [(bi, t) for bi, t in u.calls() if t.callee is not None and t.callee.name == "create_delta_array_descriptor"]
+        diffs = [(bi, t) for bi, t in u.calls() if t.callee is not None and t.callee.name == R.name("diff_maker")]
         adds = [(bi, t) for bi, t in u.calls() if t.callee is not None and t.callee.target() == "revisiontree::RevisionTree::add"]
         news = [(bi, t) for bi, t in u.calls() if t.callee is not None and t.callee.target() == "revision::Revision::new_updated"]
         res.floor("E1", "diff + new_updated + add sites in update_object", min(len(diffs), len(adds), len(news)), 1)
@@ -52,24 +54,24 @@ def run(facts, res):
                     same_tree, from_winner, nu_ok, not between), u.loc(at.line))
                 if not ok:
                     res.violation("E1", "update_object|diff-base-not-parent", "update_object records a parent that is not the revision the diff was computed against", u.loc(at.line))
-        cd = facts.body("melda::Melda::create_delta_array_descriptor")
+        cd = R.body("diff_maker")
         if cd is not None:
             ok = False
             for bi, t in cd.calls():
-                if t.callee is not None and t.callee.name == "rebuild_array_order":
+                if t.callee is not None and t.callee.name == R.name("rebuilder"):
                     a = arg_term(cd, t, 1, 16)
                     tr = arg_term(cd, t, 2, 10)
                     ok = contains_call(a, "get_winner") and any(x[0] == "param" and x[1] == 3 for x in walk(a)) and any(x[0] == "param" and x[1] == 3 for x in walk(tr))
             res.instance("E1", "create_delta_array_descriptor diffs against rebuild_array_order(rt.get_winner(), rt): %s" % ok, cd.loc())
             if not ok:
-                res.violation("E1", "create_delta_array_descriptor|base", "the diff base is not the order at the winner of the tree passed in", cd.loc())
-        rb = facts.body("melda::Melda::rebuild_array_order")
+                res.violation("E1", "diff-maker|base", "the diff base is not the order at the winner of the tree passed in", cd.loc())
+        rb = R.body("rebuilder")
         if rb is not None:
             ok = any(t.callee is not None and t.callee.target() == "revisiontree::RevisionTree::get_parent" for _, t in rb.calls())
             rev_ok = any(t.callee is not None and t.callee.name == "rev" for _, t in rb.calls())
             res.instance("E1", "rebuild_array_order walks RevisionTree::get_parent (%s) and applies the collected patches oldest first (rev(): %s)" % (ok, rev_ok), rb.loc())
             if not (ok and rev_ok):
-                res.violation("E1", "rebuild_array_order|chain", "rebuild_array_order no longer follows the recorded parent links / applies patches oldest first", rb.loc())
+                res.violation("E1", "array-rebuilder|chain", "rebuild_array_order no longer follows the recorded parent links / applies patches oldest first", rb.loc())
 
     # ------------------------------------------------------------------ E2
     w = facts.body("utils::make_diff_patch")
@@ -145,7 +147,7 @@ def run(facts, res):
             res.violation("E2", "applier-ranges", "apply_diff_patch: delete range (start op[2], end op[2]+op[1]): %s; insert at op[1] of op[2]: %s" % (d_ok, i_ok), a.loc())
 
     # ------------------------------------------------------------------ E3
-    rb = facts.body("melda::Melda::rebuild_array_order")
+    rb = R.body("rebuilder")
     if rb is None:
         res.floor("E3", "rebuild_array_order", 0, 1)
     else:
@@ -172,7 +174,7 @@ def run(facts, res):
             res.instance("E3", "cache.put(base_revision (%s), full order (%s)) and the returned value are the same local (%s), not mutated afterwards (%s)" % (
                 key_ok, full, ret_same, not mut_between), rb.loc(t.line))
             if not (key_ok and full and ret_same and not mut_between):
-                res.violation("E3", "rebuild_array_order|cached-value-differs", "the order cached under the base revision is not exactly the order returned", rb.loc(t.line))
+                res.violation("E3", "array-rebuilder|cached-value-differs", "the order cached under the base revision is not exactly the order returned", rb.loc(t.line))
         # hit path returns the cached order unmodified
         hit_ok = False
         for ob, st in assigns_of_return(rb, "Ok"):
@@ -182,7 +184,7 @@ def run(facts, res):
                 hit_ok = hit_ok or not others and any(l.kind == "variant" and l.variants == {"Some"} for l in lits_of(rb, ob, facts))
         res.instance("E3", "a cache hit returns the cached order unmodified: %s" % hit_ok, rb.loc())
         if not hit_ok:
-            res.violation("E3", "rebuild_array_order|hit-transformed", "a cache hit no longer returns the cached order as is", rb.loc())
+            res.violation("E3", "array-rebuilder|hit-transformed", "a cache hit no longer returns the cached order as is", rb.loc())
         # guard held across the whole reconstruction
         bl = locks_of(rb, facts)
         toks = [tok for tok, acq in bl.acqs.items() if acq.cls == "ADCACHE"]
@@ -196,7 +198,7 @@ def run(facts, res):
                     held_all = False
         res.instance("E3", "the cache guard is held at every call after its acquisition (no window between probe and use): %s" % held_all, rb.loc())
         if not held_all:
-            res.violation("E3", "rebuild_array_order|cache-guard-released", "rebuild_array_order releases the cache guard during the reconstruction", rb.loc())
+            res.violation("E3", "array-rebuilder|cache-guard-released", "rebuild_array_order releases the cache guard during the reconstruction", rb.loc())
         # cache lookups are keyed by the revision currently being examined: outside loops the requested revision, inside a
         # loop a value defined by that loop's own iteration (never a cursor left over from another loop)
         cfg = cfg_of(rb)
@@ -232,7 +234,7 @@ def run(facts, res):
                 why = "inside a loop: key is defined by that loop's iteration"
             res.instance("E3", "cache.%s keyed by the revision under examination (%s): %s" % (c_.name, why, ok), rb.loc(t.line))
             if not ok:
-                res.violation("E3", "rebuild_array_order|cache-lookup-key",
+                res.violation("E3", "array-rebuilder|cache-lookup-key",
                               "rebuild_array_order looks the cache up under %s, which is not the revision being examined at that point (a cursor from another "
                               "loop): the cached order of a different ancestor would be used and the edit scripts in between skipped" % fmt(k, 4), rb.loc(t.line))
         res.floor("E3", "cache lookups in the reconstruction", n_look, 2)
